@@ -15,11 +15,13 @@ ID = 'C03'
 RULE = ('all ordered sets of <=2 (T: <=3) trajectories over states {0,1,2} with lengths 1..4 '
         '(T: 1..5) x lag 1..5 (T: 1..6) x sliding x max_n_states{None,obs,obs+2} x 4 encodings; '
         'plus narrow storage types (int8/uint8/int16) with state ids near their limits and lag given as int/np.int64/np.int32/np.uint8/np.uint64; '
-        'state = (trajectory set, lag, sliding, n_states); non-trivial = count matrix with >=1 '
+        'large sets of 255..1025 short trajectories (counts straddling powers of two) in both orders and split at every power of two; '
+        'held results: the raw matrices returned by a sequence of calls (lag scan, subsets, repeated call, MSM fits) are all '
+        'read only after the last call; state = (trajectory set, lag, sliding, n_states); non-trivial = count matrix with >=1 '
         'counted pair; oracle = double loop over (t,t+lag) inside each trajectory')
 ASSUMPTIONS = ['state alphabet {0,1,2} and lengths <=5 are representative (small-scope hypothesis)',
                '-1 appears only as trailing padding (the only use the property describes)']
-GUARDS = {'narrow_dtype': 100, 'short_traj_lt_lag': 1000, 'nonsliding_differs': 1000, 'padded_rows': 1000,
+GUARDS = {'many_trajectories': 50, 'held_results': 200, 'narrow_dtype': 100, 'short_traj_lt_lag': 1000, 'nonsliding_differs': 1000, 'padded_rows': 1000,
           'equal_length_rows': 1000}
 
 
@@ -34,11 +36,13 @@ def shards(tier, seed):
     if tier == 'quick':
         S = seqs(4)
         sh = [('pairs', 4, i) for i in range(len(S))] + [('singles', 4, 0)] + [('wide', 0, 0)]
+        sh += [('many', 0, i) for i in range(4)] + [('held', 4, i) for i in range(4)]
     else:
         S5 = seqs(5)
         sh = [('pairs', 5, i) for i in range(len(S5))] + [('singles', 5, 0)]
         S3 = seqs(3)
         sh += [('triples', 3, i) for i in range(len(S3))] + [('wide', 0, 0)]
+        sh += [('many', 0, i) for i in range(4)] + [('held', 5, i) for i in range(16)]
     return sh
 
 
@@ -171,6 +175,98 @@ def check_wide(case, ctx):
         ctx.violation('counts:narrow_dtype:value:%s' % dt, case, 'shape %s entries %r, expected (%d,%d) %r (%r)' % (C.shape, got, n, n, want, case))
 
 
+MANY = (255, 256, 257, 300, 511, 512, 513, 700, 1024, 1025)
+
+
+def many_set(N, rev):
+    S = seqs(3)
+    tr = [list(S[(k * 7 + 3) % len(S)]) + ([k % 3] if k % 5 == 0 else []) for k in range(N)]
+    return tr[::-1] if rev else tr
+
+
+def check_many(case, ctx):
+    """large numbers of trajectories: totals, entries, order independence, additivity over a split"""
+    from enspara.msm.transition_matrices import assigns_to_counts
+    from enspara import ra
+    N, rev, lag, sliding, enc = case['N'], case['rev'], case['lag'], case['sliding'], case['enc']
+    ctx.ev()
+    ctx.guard('many_trajectories')
+    trajs = many_set(N, rev)
+    ctx.state(('many', N, rev, lag, sliding, enc), nontrivial=True)
+    want = oracle(trajs, lag, sliding, 3)
+    def run(ts):
+        if enc == 'ragged':
+            a = ra.RaggedArray([list(t) for t in ts])
+        else:
+            L = max(len(t) for t in ts)
+            a = -np.ones((len(ts), L), dtype=int)
+            for i, t in enumerate(ts):
+                a[i, :len(t)] = t
+        return np.asarray(assigns_to_counts(a, lag_time=lag, max_n_states=3, sliding_window=sliding).toarray())
+    try:
+        got = run(trajs)
+        if not np.array_equal(got, want):
+            ctx.violation('counts:many:value', case, '%d trajectories: total %d, oracle total %d (lag %d sliding %r)' % (
+                N, got.sum(), want.sum(), lag, sliding))
+            return
+        for cut in (1, 128, 256, 512, N - 1):
+            if 0 < cut < N:
+                ctx.ev()
+                parts = run(trajs[:cut]) + run(trajs[cut:])
+                if not np.array_equal(parts, want):
+                    ctx.violation('counts:many:additivity', case, 'split at %d of %d trajectories: parts sum to %d, whole %d' % (
+                        cut, N, parts.sum(), want.sum()))
+                    return
+    except Exception as e:
+        ctx.violation('counts:many:raises:%s' % type(e).__name__, case, 'raised %r on %r' % (e, case))
+
+
+def check_held(case, ctx):
+    """a sequence of calls whose RAW results are all read only after the last call (a result must not change because
+    the routine is called again)"""
+    from enspara.msm.transition_matrices import assigns_to_counts
+    from enspara.msm import MSM, builders
+    from enspara import ra
+    A, B = [tuple(t) for t in case['trajs']]
+    ctx.ev()
+    ctx.guard('held_results')
+    ctx.state(('held', A, B, case['order']), nontrivial=True)
+    n = 3
+    plan = [([A, B], 1, True), ([A, B], 2, True), ([A, B], 3, False), ([A], 1, True), ([B], 1, True), ([B, A], 1, True), ([A, B], 1, True),
+            ([A, B], 2, False), ([A + B], 1, True)]
+    if case['order'] == 'rev':
+        plan = plan[::-1]
+    held = []
+    try:
+        for ts, lag, sl in plan:
+            a = ra.RaggedArray([list(t) for t in ts])
+            held.append((ts, lag, sl, assigns_to_counts(a, lag_time=lag, max_n_states=n, sliding_window=sl)))
+        fits = []
+        for ts, lag in (([A, B], 1), ([B], 1), ([A, B], 2)):
+            if sum(max(0, len(t) - lag) for t in ts) == 0:
+                continue
+            m = MSM(lag_time=lag, method=builders.normalize, trim=False, max_n_states=n)
+            m.fit(ra.RaggedArray([list(t) for t in ts]))
+            fits.append((ts, lag, m))
+    except Exception as e:
+        ctx.violation('counts:held:raises:%s' % type(e).__name__, case, 'raised %r on %r' % (e, case))
+        return
+    for k, (ts, lag, sl, C) in enumerate(held):
+        got = np.asarray(C.toarray())
+        want = oracle(ts, lag, sl, n)
+        if got.shape != want.shape or not np.array_equal(got, want):
+            ctx.violation('counts:held:changed_after_later_call', case,
+                          'result #%d (trajs %r lag %d sliding %r) read after the later calls is\n%s\nbut its own pair counts are\n%s' % (
+                              k, ts, lag, sl, got, want))
+            return
+    for ts, lag, m in fits:
+        got = np.asarray(m.tcounts_.toarray() if hasattr(m.tcounts_, 'toarray') else m.tcounts_)
+        want = oracle(ts, lag, True, n)
+        if got.shape != want.shape or not np.array_equal(got, want):
+            ctx.violation('counts:held:msm_tcounts_changed', case, 'tcounts_ of an earlier fit (trajs %r lag %d) is\n%s want\n%s' % (ts, lag, got, want))
+            return
+
+
 def wide_cases():
     out = []
     fam = {'int8': (11, 12, 100, 127), 'uint8': (15, 16, 200, 255), 'int16': (181, 182, 600, 1000), 'int32': (1000,), 'int64': (1000,)}
@@ -197,6 +293,31 @@ def run_shard(sh, ctx):
             check_wide(c, ctx)
         ctx.sample(c)
         return
+    if sh[0] == 'many':
+        for k, N in enumerate(MANY):
+            for rev in (False, True):
+                for lag in (1, 2):
+                    for sliding in (True, False):
+                        for enc in ('ragged', 'padded'):
+                            if (k + lag + rev) % 4 == sh[2]:
+                                c = {'kind': 'many', 'N': N, 'rev': rev, 'lag': lag, 'sliding': sliding, 'enc': enc}
+                                check_many(c, ctx)
+        ctx.sample(c)
+        return
+    if sh[0] == 'held':
+        S = seqs(sh[1])
+        S = [t for t in S if len(t) >= 2]
+        nsh = 4 if sh[1] == 4 else 16
+        k = 0
+        for a in S[::3]:
+            for b in S[1::5]:
+                k += 1
+                if k % nsh == sh[2]:
+                    for order in ('fwd', 'rev'):
+                        c = {'kind': 'held', 'trajs': [list(a), list(b)], 'order': order}
+                        check_held(c, ctx)
+        ctx.sample(c)
+        return
     kind, maxlen, i = sh
     S = seqs(maxlen)
     lags = range(1, maxlen + 2)
@@ -219,7 +340,11 @@ def run_shard(sh, ctx):
 
 
 def replay(case, ctx):
-    if case.get('kind') == 'wide':
+    if case.get('kind') == 'many':
+        check_many(case, ctx)
+    elif case.get('kind') == 'held':
+        check_held(case, ctx)
+    elif case.get('kind') == 'wide':
         check_wide(case, ctx)
     else:
         check_case(case, ctx)
